@@ -208,11 +208,15 @@ where
 {
     type Stream = Self;
 
-    fn into_parts(self) -> (Vector<VectorDiffContainerStreamElement<S>>, Self::Stream) {
+    fn into_parts(mut self) -> (Vector<VectorDiffContainerStreamElement<S>>, Self::Stream) {
         let mut values = self.buffered_vector.clone();
         if self.limit < values.len() {
             values.truncate(self.limit);
         }
+
+        // The values above are the current view: diffs that are still waiting to
+        // be handed out are already part of it and must not be applied on top.
+        self.ready_values = Default::default();
 
         (values, self)
     }
